@@ -325,6 +325,10 @@ def _judge(case, res, exc, n_models, strategy=None):
             return None, None
         msg, kind = f"Zero returned although the joint event has positive probability: {w}", "zero"
     else:
+        bad = C07.contradictory_subscripts(expr)
+        if bad is not None:
+            return (f"estimand {expr} contains the term {bad} whose subscript set gives one variable both values: it "
+                    "denotes nothing"), "illformed"
         w = S.check_estimand(g, jt, expr, case.get("seed", 0), n_models=n_models, cond=cond)
         if w is None:
             return None, None
@@ -357,7 +361,7 @@ def _in_domain(case):
     return C18._in_domain({"g": case["g"], "event": case["outcomes"] + case["conditions"]})
 
 
-def _evaluate(case, n_models=8, with_unpatched=True):
+def _evaluate(case, n_models=8, with_unpatched=True, all_verdicts=False):
     strategies = K.id_strategies(joint(case))
     by_order, excs, strat_of = [], {}, {}
     for s in strategies:
@@ -374,17 +378,26 @@ def _evaluate(case, n_models=8, with_unpatched=True):
         results = [r0] + results
     dom = _in_domain(case)
     fail = kind = fail_strategy = None
+    verdicts = []     # (answer, strategy, failure kind | None) for every DISTINCT answer, in order of first occurrence
     if dom:
         seen = []
         for r in results:
             if r in seen:
                 continue
             seen.append(r)
-            fail, kind = _judge(case, r, excs.get(json.dumps(r)), n_models, strat_of.get(json.dumps(r)))
-            if fail:
-                fail_strategy = strat_of.get(json.dumps(r))
+            f1, k1 = _judge(case, r, excs.get(json.dumps(r)), n_models, strat_of.get(json.dumps(r)))
+            verdicts.append((r, strat_of.get(json.dumps(r)), k1))
+            if f1 and not fail:
+                fail, kind, fail_strategy = f1, k1, strat_of.get(json.dumps(r))
+            if fail and not all_verdicts:
                 break
-    return {"by_order": by_order, "unpatched": r0, "fail": fail, "kind": kind, "in_domain": dom, "strategy": fail_strategy}
+    order_verdict = None
+    if len(verdicts) > 1 and all_verdicts:
+        wrong = [v for v in verdicts if v[2]]
+        order_verdict = "all-correct" if not wrong else "all-wrong" if len(wrong) == len(verdicts) else "mixed"
+    return {"by_order": by_order, "unpatched": r0, "fail": fail, "kind": kind, "in_domain": dom, "strategy": fail_strategy,
+            "order_verdict": order_verdict,
+            "verdicts": [[json.dumps(a)[:160], list(s_) if s_ is not None else None, k_] for a, s_, k_ in verdicts]}
 
 
 COARSE = ("F11", "inherited", "reassociation", "exchange:polarity", "exchange:conditions", "exchange:separation",
@@ -410,7 +423,7 @@ SHRINK = K.Shrinker(PROP, ("outcomes", "conditions"), _evaluate, ("g", "outcomes
 
 
 def run_python(case):
-    r = _evaluate(case)
+    r = _evaluate(case, all_verdicts=True)
     by_order = r["by_order"]
     distinct = []
     for x in by_order:
@@ -428,12 +441,21 @@ def run_python(case):
             "unpatched_differs": r["unpatched"] not in by_order, "in_domain": r["in_domain"],
             "has_bidirected": bool(case["g"]["bi"]), "failure_kind": r["kind"], "rejected_possible": rejected_possible,
             "single_world_leaves": all(C07.single_world(x[1]) for x in by_order if x[0] == "ok"),
-            "condition_certainly_impossible": certainly_impossible(case["conditions"])}
+            "condition_certainly_impossible": certainly_impossible(case["conditions"]),
+            # task "hash seed": when the answer depends on the iteration order of a Python set, are all answers right?
+            "order_dependent_verdict": r["order_verdict"]}
     nontrivial = r["in_domain"] and K.n_worlds(jt) >= 1 and bool(case["g"]["di"] or case["g"]["bi"]) and \
         shape in ("P", "sum", "prod", "frac", "unidentifiable", "zero")
     out = {"out": ["orders", by_order], "fail": r["fail"], "nontrivial": bool(nontrivial), "tags": tags}
+    if r["fail"] and r["order_verdict"] == "mixed":
+        out["fail"] += (" [the answer depends on the iteration order of a Python set (PYTHONHASHSEED): under another order "
+                        "idc_star returns a CORRECT answer; verdict per distinct answer: %s]" % r["verdicts"])
     if r["fail"] and r["kind"] in COARSE:
-        out["finding_key"] = _coarse_key(case, r)
+        ck = _coarse_key(case, r)
+        if r["order_verdict"] == "mixed":
+            # the same input is answered correctly under one iteration order and wrongly under another
+            ck = json.dumps(["order-dependent-verdict", json.loads(ck)])
+        out["finding_key"] = ck
     elif r["fail"] and not case.get("_noshrink"):
         small, key = SHRINK.shrink_to_key(case, r["kind"])
         out["shrunk"] = small
